@@ -45,6 +45,8 @@ FEATURES: Dict[str, Dict[str, List[int]]] = {
     "strfn": {"bool": [9]}, "matches": {"bool": [9]}, "in": {"bool": [10]}, "streq": {"bool": [11]},
     "concat": {"str": [0], "list": [3]}, "string_conv": {"str": [1]}, "listlit": {"list": [0]},
     "map": {"list": [1]}, "filter": {"list": [2]}, "duration": {"bool": [13]},
+    # not a construct but a preference among names: the package-relative spellings (var())
+    "pkgname": {"int": [0, 1, 2], "bool": [0, 1, 2]},
 }
 
 
@@ -54,7 +56,8 @@ class ExprGen:
 
     def __init__(self, r: random.Random, decls: Dict[str, str], salt: int = 0,
                  undeclared: bool = True, host: Optional[List[str]] = None,
-                 size_focus: bool = False, features: Optional[List[str]] = None) -> None:
+                 size_focus: bool = False, features: Optional[List[str]] = None,
+                 bias: float = 0.7) -> None:
         self.r = r
         self.decls = decls
         self.salt = salt
@@ -64,6 +67,7 @@ class ExprGen:
         # swarm testing: the constructs featured by this run are chosen far more often, so that
         # several threads / programs of one run use the same (otherwise rare) library function
         self.features = features or []
+        self.bias = bias  # share of the choices that go to a featured construct
         self.macro_vars: List[Tuple[str, str]] = []  # (name, type) in scope
 
     # -- helpers --------------------------------------------------------------------------------
@@ -88,13 +92,17 @@ class ExprGen:
                 return self.r.choice(pool)
         if not ns:
             return None
+        if "pkgname" in self.features and self.r.random() < self.bias:
+            rel = [n[2:] for n in ns if n.startswith("p.")]
+            if rel:
+                return self.r.choice(rel)
         n = self.r.choice(ns)
         if self.r.random() < 0.05 and "." not in n:
             return "." + n  # root-scope reference
         return n
 
     def _pick(self, ty: str, n: int) -> int:
-        if self.features and self.r.random() < 0.4:
+        if self.features and self.r.random() < self.bias:
             ks = [k for f in self.features for k in FEATURES.get(f, {}).get(ty, [])]
             if ks:
                 return self.r.choice(ks)
@@ -285,17 +293,21 @@ INVALID_TEXTS = ["1 +", "(x", "x ? 1", "[1, 2", "x +* 2", '"abc', "1 2", "a..b",
 def gen_expr(r: random.Random, decls: Dict[str, str], salt: int = 0, depth: Optional[int] = None,
              invalid_share: float = 0.04, host: Optional[List[str]] = None,
              size_focus: bool = False, deep_share: float = 0.0,
-             features: Optional[List[str]] = None) -> str:
+             features: Optional[List[str]] = None, bias: float = 0.7) -> str:
     if r.random() < invalid_share:
         return r.choice(INVALID_TEXTS)
     if deep_share and r.random() < deep_share:
         return gen_deep_expr(r, decls, salt)
-    g = ExprGen(r, decls, salt, host=host, size_focus=size_focus, features=features)
+    g = ExprGen(r, decls, salt, host=host, size_focus=size_focus, features=features, bias=bias)
     d = depth if depth is not None else r.choice([1, 2, 2, 3, 3, 4])
     if features:
         d = max(d, 2)
-        bool_feats = any("bool" in FEATURES.get(f, {}) for f in features)
-        return g.bool_(d) if (bool_feats and r.random() < 0.6) else g.any_(d)
+        # the root is of a type in which a featured construct can occur at all
+        tys = sorted({ty for f in features for ty in FEATURES.get(f, {})})
+        if tys and r.random() < max(0.6, bias):
+            ty = r.choice(tys)
+            return {"int": g.int_, "bool": g.bool_, "str": g.str_, "list": g.list_}[ty](d)
+        return g.any_(d)
     if size_focus:
         return g.int_(max(d, 1)) if r.random() < 0.7 else g.bool_(max(d, 2))
     return g.any_(d)
